@@ -42,6 +42,7 @@ type program struct {
 	Ops      []op     `json:"ops"`
 	ObsEvery int      `json:"obs_every"`
 	Pattern  string   `json:"pattern"`
+	DstT     int      `json:"dst_T"` // table size of the store that receives transferred tables (0: 1 MiB); a small one refuses large entries
 }
 
 const minEntry = 38 // 29 bytes of metadata + 1 byte key + 8 bytes carrying the value id
@@ -276,7 +277,11 @@ func (r *runner) run(p *program, seq int) {
 	if err != nil {
 		panic(err)
 	}
-	dst, err := newStore(1<<20, time.Hour)
+	dstT := 1 << 20
+	if p.DstT > 0 {
+		dstT = p.DstT
+	}
+	dst, err := newStore(dstT, time.Hour)
 	if err != nil {
 		panic(err)
 	}
@@ -319,7 +324,7 @@ func (r *runner) run(p *program, seq int) {
 			if hung {
 				name = "hang"
 			}
-			r.w.Emit(trace.Ev{"t": "put", "k": o.K, "id": id, "sz": sz, "raw": o.Op == "putraw", "ttl": 0, "ts": id, "err": name})
+			r.w.Emit(trace.Ev{"t": "put", "k": o.K, "klen": len(o.K), "id": id, "sz": sz, "raw": o.Op == "putraw", "ttl": 0, "ts": id, "err": name})
 			if hung {
 				r.wedged = append(r.wedged, fmt.Sprintf("seq %d op %d: %s never returned", seq, n, o.Op))
 				r.abort = true
@@ -371,9 +376,8 @@ func (r *runner) run(p *program, seq int) {
 				if err != nil {
 					name = errName(err)
 				} else {
-					err = dst.Import(data, func(h uint64, e storage.Entry) error {
-						arr = append(arr, trace.Ev{"k": e.Key(), "id": idOf(e.Value()), "ttl": int(e.TTL()), "ts": int(e.Timestamp())})
-						// dmap.fragmentMergeFunction
+					// dmap.fragmentMergeFunction
+					merge := func(h uint64, e storage.Entry) error {
 						cur, err := dst.Get(h)
 						if errors.Is(err, storage.ErrKeyNotFound) {
 							return dst.Put(h, e)
@@ -385,6 +389,12 @@ func (r *runner) run(p *program, seq int) {
 							return nil
 						}
 						return dst.Put(h, e)
+					}
+					err = dst.Import(data, func(h uint64, e storage.Entry) error {
+						err := merge(h, e)
+						// "ok": the receiver has stored (or already held a newer version of) this entry
+						arr = append(arr, trace.Ev{"k": e.Key(), "id": idOf(e.Value()), "ttl": int(e.TTL()), "ts": int(e.Timestamp()), "ok": err == nil})
+						return err
 					})
 					if err != nil {
 						name = errName(err)
@@ -431,6 +441,11 @@ func randomProgram(rng *rand.Rand, n int) *program {
 	nk := 3 + rng.Intn(10)
 	keys := keysN(nk)
 	p := &program{Src: "random", T: T, IdleMs: []int{0, 3600000}[rng.Intn(2)], Keys: keys, Pattern: "^[abc]"}
+	if T >= 1024 && rng.Intn(3) == 0 {
+		// the receiver of transferred tables has smaller tables than the sender: it cannot store the larger entries, the
+		// import must fail and the sender must keep its table
+		p.DstT = 200
+	}
 	maxSz := T - 1
 	if maxSz > 400 {
 		maxSz = 400
@@ -580,6 +595,30 @@ func mixedProgram(rng *rand.Rand, rounds int) *program {
 	return p
 }
 
+// keylenProgram uses keys at the limit of what a table can represent (the key length is stored in one byte): a key is either
+// refused or stored and read back like any other.
+func keylenProgram(rng *rand.Rand, n int) *program {
+	keys := []string{"a", "b" + strings.Repeat("k", 253), "c" + strings.Repeat("l", 254), "a" + strings.Repeat("m", 255), "b" + strings.Repeat("n", 299)}
+	T := []int{4096, 65536}[rng.Intn(2)]
+	p := &program{Src: "keylen", T: T, IdleMs: 0, Keys: keys, ObsEvery: 1, Pattern: "^[abc]"}
+	for i := 0; i < n; i++ {
+		k := keys[rng.Intn(len(keys))]
+		switch x := rng.Intn(20); {
+		case x < 10:
+			p.Ops = append(p.Ops, op{Op: "put", K: k, Sz: minEntry + len(k) + rng.Intn(300)})
+		case x < 13:
+			p.Ops = append(p.Ops, op{Op: "del", K: k})
+		case x < 15:
+			p.Ops = append(p.Ops, op{Op: "uttl", K: k})
+		case x < 18:
+			p.Ops = append(p.Ops, op{Op: "compactall"})
+		default:
+			p.Ops = append(p.Ops, op{Op: "xfer"})
+		}
+	}
+	return p
+}
+
 // largeProgram uses the default table size (1 MiB) and entries of tens to hundreds of KiB: what compaction moves in one
 // step, and what fits a table, is counted in bytes as well as in entries.
 func largeProgram(rng *rand.Rand, n int) *program {
@@ -685,6 +724,9 @@ func TestKV(t *testing.T) {
 	}
 	for i := 0; i < envInt("VERIF_KV_MIXED", 0); i++ {
 		progs = append(progs, mixedProgram(rng, 60))
+	}
+	for i := 0; i < envInt("VERIF_KV_KEYLEN", 0); i++ {
+		progs = append(progs, keylenProgram(rng, 40))
 	}
 	for i := 0; i < envInt("VERIF_KV_LARGE", 0); i++ {
 		progs = append(progs, largeProgram(rng, 60))
